@@ -165,6 +165,22 @@ func normBs(x interface{}) interface{} {
 
 func copyNested(x interface{}) interface{} { return gen.DeepCopy(x) }
 
+// markDeep writes k2 := v into every object reachable inside x (children first); Sheens/ES.lean markV.
+func markDeep(x interface{}, k2 string, v interface{}) interface{} {
+	switch vv := x.(type) {
+	case []interface{}:
+		for i := range vv {
+			vv[i] = markDeep(vv[i], k2, v)
+		}
+	case map[string]interface{}:
+		for k := range vv {
+			vv[k] = markDeep(vv[k], k2, v)
+		}
+		vv[k2] = v
+	}
+	return x
+}
+
 // nativeAction compiles a program to a Go closure with the same meaning as Sheens/ES.lean Prog.run.
 func nativeAction(p *gen.Prog) *core.FuncAction {
 	return &core.FuncAction{F: func(ctx context.Context, given match.Bindings, props core.StepProps) (*core.Execution, error) {
@@ -220,6 +236,12 @@ func nativeAction(p *gen.Prog) *core.FuncAction {
 				m[op[2].(string)] = copyNested(op[3])
 				work[k] = m
 				mutated = true
+			case "markdeep":
+				k := op[1].(string)
+				if x, have := work[k]; have {
+					work[k] = markDeep(copyNested(x), op[2].(string), op[3])
+					mutated = true
+				}
 			case "rejectUnless":
 				if _, have := work[op[1].(string)]; !have {
 					return exe, nil
